@@ -84,6 +84,12 @@ Extra ==
      <<"s0", <<Extends("s1"), Block("a", FALSE, <<NText("<s0>"), NOut(P(VP("block", "super"))), NText("+"), NOut(P(VP("block", "super"))), NText("</s0>")>>)>>>>,
      <<"s1", <<Extends("s2"), Block("a", FALSE, <<NText("<s1>"), NOut(P(VP("block", "super"))), NOut(P(VP("block", "super"))), NText("</s1>")>>)>>>>,
      <<"s2", <<NText("{s:"), Block("a", FALSE, <<Incr("c"), Cycle("", <<S("x"), S("y"), S("z")>>, "|x,y,z")>>), Incr("c"), NText("}")>>>>,
+     \* errors raised while a chain renders name the template they come from (C17): a block made required half-way
+     \* down a three-level chain and never overridden; an expression that fails inside an overriding block
+     <<"r1", <<Extends("r2")>>>>,
+     <<"r2", <<Extends("r3"), Block("a", TRUE, <<>>)>>>>,
+     <<"r3", <<NText("line one\nline two\n["), Block("a", FALSE, <<NText("A")>>), NText("]")>>>>,
+     <<"z1", <<Extends("u2"), Block("a", FALSE, <<NText("some text before it "), NOut(F(I(1), <<Fl("divided_by", <<I(0)>>)>>))>>)>>>>,
      <<"mix1", <<Extends("mix2"), Block("a", FALSE, <<NText("<mixA>")>>), Block("b", FALSE, <<NText("<mixB>")>>)>>>>,
      <<"mix2", <<NText("M["), Block("a", FALSE, <<NText("a0")>>), NText("|"), Include(S("u1"), "none", NilE, "", <<>>),
                  NText("|"), Block("b", FALSE, <<NText("b0")>>), NText("]")>>>> >>
@@ -166,6 +172,6 @@ Emit(main, last) ==
 Export ==
   done => /\ Emit("t1", "") /\ Emit("inc", "") /\ Emit("ren", "")
           /\ (\A tgt \in InnerTargets : Emit("t1", tgt) /\ Emit("inc", tgt))
-          /\ (Len(chain) = 1 => (Emit("s1", "") /\ Emit("s0", "")))
+          /\ (Len(chain) = 1 => (Emit("s1", "") /\ Emit("s0", "") /\ Emit("r1", "") /\ Emit("z1", "")))
           /\ (Len(chain) <= 2 => (Emit("t1", "t1") /\ Emit("t1", "nosuch") /\ Emit("mix1", "") /\ Emit("u1", "") /\ Emit("seq", "")))
 =============================================================================
